@@ -21,7 +21,7 @@ CHECKS["C01"] = dict(
 
 CHECKS["C05"] = dict(
     technique="TLC model checking of PartialUpdate.tla (all short histories, both handler variants, accumulating-list negative control) + TLC trace validation of recorded real histories (async consume() task on the virtual loop, threaded stepped engine) with installs observed at their linearisation point",
-    text="All histories of <=4 partial-update messages / unreported spa changes / refreshes over a small block are model-checked for both handler variants (client block = sequential reference, one ack per message, ack in protocol range); the variant that never resets its change list is refuted as a control. Real histories (random and repeated positions, the 1-byte form, refreshes overwriting the same positions, one long history past the counter wrap) on the real async and threaded clients are recorded - every block install with the installing task, every STATQ - and TLC validates each log against the spec.",
+    text="All histories of <=4 partial-update messages / unreported spa changes / refreshes over a small block are model-checked for both handler variants (client block = sequential reference, one ack per message, ack in protocol range); the variant that never resets its change list is refuted as a control. Real histories (random and repeated positions, the 1-byte form, refreshes overwriting the same positions, one long history past the counter wrap) on the real async and threaded clients are recorded - every block install with the installing task, every STATQ - and TLC validates each log against the spec. Refresh calls are logged with their reported result: a refresh that reports success must leave its range equal to the spa's; every history contains a value that is changed by a reported update, silently changed back and refreshed by a byte-identical refresh.",
     note="Trusted: TLC, W1/W2 doubles, the instance-level wrapper around replace_status_block_segment, STATQ decoding by the harness. Steps are taken only while no transfer is in flight (a refresh overlapping a spa-side change is a protocol-level race, not a library property).",
     design="§4 C05")
 
@@ -62,7 +62,7 @@ CHECKS["C17"] = dict(
 
 CHECKS["C15"] = dict(
     technique="Discovery.tla model-checked by TLC for the four filter settings (consumer and discover loop as independent pollers, replies at any time/multiplicity) + TLC trace validation of real GeckoAsyncLocator.discover() runs against scripted responders on the virtual loop",
-    text="TLC checks NoDuplicates, OnlyRequested, WithinTimeout, PromptWhenFiltered, PromptWhenAny and NotEarly over every arrival pattern of <=4 replies from 3 spas and every consumer/loop wake order. Real discovery runs (0..6 responders with names containing '|' and latin-1, duplicate and late replies, loss, address/identifier/absent filters, suspended client handlers, four wake-order policies, a boundary grid around the initial wait and the timeout) are logged - reply arrival, queue pops, announced descriptors, return time, listed spas, endpoint and LOC tasks - and validated by TLC (FIFO consumption, one announcement per new wanted spa with identifier/name/address intact, listed = announced, return-time rule, endpoint closed, no helper task left).",
+    text="TLC checks NoDuplicates, OnlyRequested, WithinTimeout, PromptWhenFiltered, PromptWhenAny and NotEarly over every arrival pattern of <=4 replies from 3 spas and every consumer/loop wake order. Real discovery runs (0..6 responders with names containing '|' and latin-1, duplicate and late replies, loss, address/identifier/absent filters, suspended client handlers, four wake-order policies, a boundary grid around the initial wait and the timeout) are logged - reply arrival, queue pops, announced descriptors, return time, listed spas, endpoint and LOC tasks - and validated by TLC (FIFO consumption, one announcement per new wanted spa with identifier/name/address intact, listed = announced, return-time rule, endpoint closed, no helper task left). Ten runs use a loop whose every wake-up is up to 30 ms late; the trace bounds move by one lateness, not one per poll.",
     note="Trusted: TLC, virtual loop, queue wrapper. Timing tolerance one poll + 6 ms (+ the client's own handler suspension where it delays the code). Only hello replies are sent to the locator's queue.",
     design="§4 C15")
 
@@ -79,35 +79,35 @@ CHECKS["C12"] = dict(
 
 CHECKS["C19"] = dict(
     technique="SnapshotLog.tla (parser line automaton + writer line sequence) with laws model-checked by TLC; abstract behaviours concretised with the shell's real logging statements/formatter, a real client's DEBUG traffic log, and every shipped snapshot served by the real simulator to both real clients; records judged by TLC (C19_Judge)",
-    text="TLC checks that a writer block parses back to exactly its fields under any surrounding junk lines, that two blocks yield two snapshots and that segments join in order. The real do_snapshot/version_strings statements are run through the shell's log-file formatter for blocks covering every byte value at every position residue, quotes, backslashes and control bytes, with junk lines around, and parsed back; real threaded-client traffic logs of a full connection (segment sizes 1..255, perturbed blocks) must reassemble to the transferred block; each of the 38 snapshots in the 34 shipped files is loaded into the real simulator and fetched by the async and the threaded client, also with the simulator's own reliability factor below 1 (a client that connects must hold the snapshot's bytes).",
+    text="TLC checks that a writer block parses back to exactly its fields under any surrounding junk lines, that two blocks yield two snapshots and that segments join in order. The real do_snapshot/version_strings statements are run through the shell's log-file formatter for blocks covering every byte value at every position residue, quotes, backslashes and control bytes, with junk lines around, and parsed back; real threaded-client traffic logs of a full connection (segment sizes 1..255, perturbed blocks) must reassemble to the transferred block; each of the 38 snapshots in the 34 shipped files is loaded into the real simulator and fetched by the async and the threaded client, also with the simulator's own reliability factor below 1 (a client that connects must hold the snapshot's bytes). One shell object writes all snapshots of a run (a session that manages one spa after another).",
     note="Trusted: TLC, W1/W2 doubles, the stub that carries the shell's logging statements. D17 (double quote in a full segment) was found and fixed.",
     design="§4 C19")
 
 CHECKS["C20"] = dict(
     technique="ThreadedEngine.tla model-checked by TLC (iteration sub-steps with registration/enqueue/arrival/time in between; no-re-arm control refuted) + TLC-simulated behaviours replayed sub-step by sub-step into the real GeckoUdpSocket + real blocking-client handshakes under bounded loss judged by TLC",
-    text="TLC checks FIFO order of transmissions, pacing >= 1/rate, <= 1+N transmissions, no retransmission after an answer, removal at the next cleanup, for all registration orders of two requests and an overlapping, raising service handler. Hundreds (quick) to thousands (thorough) of TLC-simulated behaviours are replayed on the real engine with handlers mirroring the model and the projected state compared after every sub-step (this found and now models that a retransmission queued before the first transmission is dropped for lack of a destination). The real blocking client completes its handshake against the real simulator with an identical block under seeded loss patterns that lose up to N leading attempts of every step; transmissions per step and send gaps are judged by TLC.",
+    text="TLC checks FIFO order of transmissions, pacing >= 1/rate, <= 1+N transmissions, no retransmission after an answer, removal at the next cleanup, for all registration orders of two requests and an overlapping, raising service handler. Hundreds (quick) to thousands (thorough) of TLC-simulated behaviours are replayed on the real engine with handlers mirroring the model and the projected state compared after every sub-step (this found and now models that a retransmission queued before the first transmission is dropped for lack of a destination). The real blocking client completes its handshake against the real simulator with an identical block under seeded loss patterns that lose up to N leading attempts of every step; transmissions per step and send gaps are judged by TLC. Handshakes lose any one segment of a status-block answer (first, second, middle, last).",
     note="Trusted: TLC, the stepped engine (W2), exact binary time units in the replay. Assumption: no handler timeout elapses between a datagram's dispatch and the timeout scan of the same iteration. Real-thread preemption of the queues is not explored (C16 covers the locked counters).",
     design="§4 C20")
 
 CHECKS["C06"] = dict(
     technique="AsyncEngine.tla model-checked by TLC at poll granularity (FIFO lock, retry/timeout/pause, consumers in arbitrary in-tick order, reply loss/lateness) + TLC trace validation of real connections with concurrent API callers under reply faults and closed gates",
-    text="TLC checks MutualExclusion, lock-holder = the only busy caller, attempts <= R, reply only after a transmission, failure only after R attempts and the call bound R*(T+P)+R+1 polls over all interleavings of two callers with lost and late replies. On the real stack 1..8 concurrent API calls (water care, reminders, key press, set value) run next to the ping/refresh/facade loops with seeded reply loss, delay and duplication, and with the freshness gate closed in the idle and in the active configuration; every send, queue put/mark/pop with the acting task, call start (with an independently computed gate) and return is logged in execution order and TLC validates: one request outstanding at a time, explicit calls served in arrival order, <= R fresh attempts, result consistent with what was popped, duration bound, nothing sent by a call whose gate was closed.",
+    text="TLC checks MutualExclusion, lock-holder = the only busy caller, attempts <= R, reply only after a transmission, failure only after R attempts and the call bound R*(T+P)+R+1 polls over all interleavings of two callers with lost and late replies. On the real stack 1..8 concurrent API calls (water care, reminders, key press, set value) run next to the ping/refresh/facade loops with seeded reply loss, delay and duplication, and with the freshness gate closed in the idle and in the active configuration; every send, queue put/mark/pop with the acting task, call start (with an independently computed gate) and return is logged in execution order and TLC validates: one request outstanding at a time, explicit calls served in arrival order, <= R fresh attempts, result consistent with what was popped, duration bound, nothing sent by a call whose gate was closed. Scenario kinds: concurrent calls under reply loss/delay/duplication, closed gates (idle and active table), chatter (most replies lost while unsolicited partial updates keep arriving), stalls (the event loop wakes up late; each stall is logged and moves the bounds of the trace specification by exactly its length).",
     note="Trusted: TLC, virtual loop, queue wrapper, harness decoding of verbs/sequence bytes, the freshness window 2 x PING_FREQUENCY as the meaning of 'answering pings'. Gates are read as evaluated at call start (the code checks once, before the lock); retransmissions after freshness expires mid-call (D11) are outside this reading and documented in DESIGN.md.",
     design="§4 C06")
 CHECKS["C07"] = dict(
     technique="AsyncEngine.tla dispatch invariants model-checked by TLC (CapablePopper, UnhandledOnlyMarked, NoHeadOfLine) + TLC's order-flip witness schedule reproduced on the real queue + TLC trace validation of real connections under junk / mis-addressed / malformed traffic and four wake-order policies",
-    text="TLC checks that only accepting consumers pop, Unhandled only pops what it marked a wake-up earlier, and no datagram heads the queue for more than 3 polls + stalls, under every in-tick order; its counterexample to 'Unhandled never discards a framed packet' (Packet before Unhandled in one tick, the reverse in the next) is imposed on the real consumers with the loop's rank script and must reproduce, while both stable orders must let the Packet consumer take the packet. Real connections receive seeded sequences of unknown, unsolicited, mis-addressed, malformed, water-care-error, RF-error and partial-update datagrams (with a client handler that suspends), with and without waiters; TLC validates FIFO single consumption, acceptance by the popping consumer, mark-before-Unhandled-pop, re-queue only of well-formed correctly addressed frames, head-of-line bound; state around mis-addressed traffic is compared directly.",
+    text="TLC checks that only accepting consumers pop, Unhandled only pops what it marked a wake-up earlier, and no datagram heads the queue for more than 3 polls + stalls, under every in-tick order; its counterexample to 'Unhandled never discards a framed packet' (Packet before Unhandled in one tick, the reverse in the next) is imposed on the real consumers with the loop's rank script and must reproduce, while both stable orders must let the Packet consumer take the packet. Real connections receive seeded sequences of unknown, unsolicited, mis-addressed, malformed, water-care-error, RF-error and partial-update datagrams (with a client handler that suspends), with and without waiters; TLC validates FIFO single consumption, acceptance by the popping consumer, mark-before-Unhandled-pop, re-queue only of well-formed correctly addressed frames, head-of-line bound; state around mis-addressed traffic is compared directly. A third of the scenarios run on an event loop that occasionally stalls (logged stalls move the head-of-line bound).",
     note="Trusted: TLC, virtual loop with scripted ranks, queue wrapper, harness classification of datagrams. 'A few polling intervals' = 3 polls + 12 ms.",
     design="§4 C07")
 
 CHECKS["C08"] = dict(
     technique="Lifecycle.tla (frames per task, running token, budgeted client-handler suspension, known findings as named flags) model-checked by TLC + TLC trace validation of real manager executions with every non-delivery step inferred (Lifecycle_Trace)",
-    text="The _handle_event switch, pump, locate/connect brackets with finally, non-atomic reset, ping/runtime events and context exit are transcribed frame by frame; TLC runs the bounded configurations (without and with suspension) to closure and checks ConnectedSound, ReadyIffEnterConnected, TeardownBracket, BracketsSane/ClosedAtExit, SensorMirrorsState and ResetLandsIdle in the form 'or the behaviour took a listed known-finding transition'. The real GeckoAsyncSpaMan runs on the virtual loop against the real simulator through blackout, lossy and RF-error phases (idle and active configuration), resets at enumerated points of discovery/handshake/steady/error states, suspended client handlers and context exit; every handle_event delivery with sampled state, facade, spa, descriptors, status-sensor text and delivering task plus the harness's actions is validated by TLC against the specification, invariants evaluated on every state of the matched behaviour.",
+    text="The _handle_event switch, pump, locate/connect brackets with finally, non-atomic reset, ping/runtime events and context exit are transcribed frame by frame; TLC runs the bounded configurations (without and with suspension) to closure and checks ConnectedSound, ReadyIffEnterConnected, TeardownBracket, BracketsSane/ClosedAtExit, SensorMirrorsState and ResetLandsIdle in the form 'or the behaviour took a listed known-finding transition'. The real GeckoAsyncSpaMan runs on the virtual loop against the real simulator through blackout, lossy and RF-error phases (idle and active configuration), resets at enumerated points of discovery/handshake/steady/error states, suspended client handlers and context exit; every handle_event delivery with sampled state, facade, spa, descriptors, status-sensor text and delivering task plus the harness's actions is validated by TLC against the specification, invariants evaluated on every state of the matched behaviour. Further modelled and exercised: phases that raise (the loop refuses to create the endpoint of a discovery or of a connection), RF errors counted per connection up to and past MAX_RF_ERRORS_BEFORE_HALT (also while the SPA_COMPLETE handler is suspended), async_set_spa_info incl. managers started without an identifier, wake-up jitter in the seeded mixtures.",
     note="Trusted: TLC, virtual loop, the simulator, mapping of task names to model tasks (epoch = connection attempts started before the task was created). Request outcomes are not tied to the network mode in trace mode. Known finding D10 (reset overtaken during a suspended handler); D8 and D18 were found and fixed.",
     design="§4 C08")
 CHECKS["C09"] = dict(
     technique="Lifecycle.tla safety (PumpAlive) and liveness (Quiet ~> CONNECTED under strong fairness, thorough tier) by TLC + TLC trace validation of real fault/reset scenarios + measured recovery/out-of-service times judged by TLC against bounds from the live configuration (C09_Judge)",
-    text="Same specification and runs as C08 with the emphasis on recovery: after the script's last fault (blackouts from 3 s to 400 s at discovery/handshake/steady state, lossy and RF-error phases, resets at every enumerated point of a connection attempt, seeded mixtures) the run continues for a bound derived from the configured timeouts and must be CONNECTED with the pump task alive and a client block equal to the simulator's; a long blackout in steady state must take the manager out of CONNECTED within its bound. The logs are validated against Lifecycle_Trace; the measured times are judged by TLC.",
+    text="Same specification and runs as C08 with the emphasis on recovery: after the script's last fault (blackouts from 3 s to 400 s at discovery/handshake/steady state, lossy and RF-error phases, resets at every enumerated point of a connection attempt, seeded mixtures) the run continues for a bound derived from the configured timeouts and must be CONNECTED with the pump task alive and a client block equal to the simulator's; a long blackout in steady state must take the manager out of CONNECTED within its bound. The logs are validated against Lifecycle_Trace; the measured times are judged by TLC. Faults are placed relative to a pilot run of the real code (a blackout beginning just before each discovery / handshake datagram); set-spa-info calls are injected like resets, also on managers started without an identifier.",
     note="Trusted as C08. Known findings: D9 (ERROR_SPA_NOT_FOUND is terminal) and D10; D8 (pump dies on reset while connecting) and D18 (stranded in SPA_READY) were fixed. Liveness under fairness is checked on the model only (thorough tier, outer timeout).",
     design="§4 C09")
 
@@ -119,7 +119,7 @@ CHECKS["C10"] = dict(
 
 CHECKS["C13"] = dict(
     technique="command semantics specified in TLA+ over BitField.Write (C13_Judge) with a spa model (apply / toggle / derived state / echo); real async and blocking facades driven against the real simulator extended by an apply-and-echo peer; every command record judged by TLC",
-    text="For every snapshot configuration, every pump mode, blower/light/eco on and off from both prior states (repeated to exercise idempotence), target temperatures, unit changes and water-care modes are issued through the real facade on the real async spa (virtual loop) and through the blocking facade on the stepped engine; the peer decodes the command datagrams with the real pack-command handler, applies them to the simulator's block, derives the output state and echoes partial updates (its actions are part of each record). TLC judges: nothing sent when already in the requested state, otherwise exactly one SPACK with a command-range sequence number, the connected pack's type and config/log versions, the right key code or (pos, len, word = Write(existing, shape, value)), SETWC in the protocol range, and the requested value read back by the client after the echo.",
+    text="For every snapshot configuration, every pump mode, blower/light/eco on and off from both prior states (repeated to exercise idempotence), target temperatures, unit changes and water-care modes are issued through the real facade on the real async spa (virtual loop) and through the blocking facade on the stepped engine; the peer decodes the command datagrams with the real pack-command handler, applies them to the simulator's block, derives the output state and echoes partial updates (its actions are part of each record). TLC judges: nothing sent when already in the requested state, otherwise exactly one SPACK with a command-range sequence number, the connected pack's type and config/log versions, the right key code or (pos, len, word = Write(existing, shape, value)), SETWC in the protocol range, and the requested value read back by the client after the echo. Target temperatures cover every tenth of a degree Fahrenheit and every half degree Celsius of the setpoint range (strides in the quick tier), which also puts more commands on one connection than the command counter has values.",
     note="Trusted: TLC, W1/W2 doubles, the apply-and-echo spa model (key press toggles OFF <-> first other label; output state follows the demand). The blocking water-care set is fire-and-forget and not judged. Snapshot configurations do not include inXM log 4/5, where the eco switch's item is read-only (noted in DESIGN.md).",
     design="§4 C13")
 
